@@ -114,6 +114,7 @@ type ccfg struct {
 	skipIn    bool
 	name      string
 	cidrs     []string
+	emptyRing bool // a keyring without keys at creation (keys installed later)
 }
 
 type cnode struct {
@@ -169,6 +170,11 @@ func newCnode(c ccfg) (*cnode, error) {
 			return nil, err
 		}
 		conf.CIDRsAllowed = nets
+	}
+	if c.emptyRing {
+		kr, _ := ml.NewKeyring(nil, nil)
+		conf.Keyring = kr
+		keyring = kr
 	}
 	if c.key != nil {
 		kr, err := ml.NewKeyring(c.keys, c.key)
